@@ -63,7 +63,10 @@ class Lexer(object):
     @TOKEN(r'("(\\.|[^"\\])*")|(\'(\\.|[^\'\\])*\')')
     def t_STRING(self, t):
         t.lexer.lineno += t.value.count("\n")
-        t.value = t.value[1:-1].encode("latin-1", "backslashreplace").decode("unicode_escape")
+        try:
+            t.value = t.value[1:-1].encode("latin-1", "backslashreplace").decode("unicode_escape")
+        except UnicodeDecodeError:
+            raise SyntaxError("Invalid escape sequence in string {0} at position {1}".format(t.value, t.lexpos))
         return t
 
     @TOKEN(r"[\r\n]+")
